@@ -452,6 +452,7 @@ func (e *Environment) CreateOrSet(name string, val Object, create bool) Object {
 // sameConstant tells if binding a constant again, to val, leaves it what it was: equal is not enough,
 // 0.0 == -0.0 and two closures with the same text are equal too.
 func sameConstant(old, val Object) bool {
+	MustFitExpanded(old, val) // comparing (and printing) walks everything a container refers to.
 	if !Equals(old, val) {
 		return false
 	}
